@@ -162,6 +162,10 @@ func (d *KeyDialect) mk(i int) interface{} {
 			// characters the JSON encoder escapes (<, >, &) and a non-ASCII rune
 			return "k" + strconv.Itoa(i) + "<&>\u00e9"
 		}
+		if i%13 == 6 {
+			// U+2028 / U+2029: valid UTF-8 that encoding/json escapes all the same
+			return "k" + strconv.Itoa(i) + "\u2028x\u2029"
+		}
 		return "k" + strconv.Itoa(i)
 	case "bytes":
 		// variable length, includes 0x00 and 0xff, prefix relationships
@@ -272,6 +276,9 @@ func (v *ValDialect) Val(i int) interface{} {
 		if i%5 == 3 {
 			return "v<tag>&" + strconv.Itoa(i)
 		}
+		if i%11 == 5 {
+			return "v" + strconv.Itoa(i) + "\u2028\u2029"
+		}
 		if i%7 == 2 {
 			// encodings whose length sits on the 1-byte/2-byte varint boundary (127, 128, 129 bytes as JSON)
 			s := "v" + strconv.Itoa(i) + "-"
@@ -306,7 +313,10 @@ func (v *ValDialect) Val(i int) interface{} {
 		}
 		return "h" + strconv.Itoa(i)
 	case "ptr":
-		// a fresh allocation per call: equal values are distinct objects
+		// a fresh allocation per call: equal values are distinct objects; a few are typed nil pointers
+		if i%10 == 4 {
+			return (*SVal)(nil)
+		}
 		return &SVal{X: i, Y: "p" + strconv.Itoa(i%3)}
 	case "nil":
 		return nil
@@ -358,6 +368,9 @@ func (v *ValDialect) Distinct(i, j int) bool {
 	}
 	if v.Name == "inf" && i%5 == 2 && j%5 == 2 {
 		return false // +Inf is +Inf
+	}
+	if v.Name == "ptr" && i%10 == 4 && j%10 == 4 {
+		return false // a nil pointer is a nil pointer
 	}
 	return i != j
 }
